@@ -985,4 +985,6 @@ pub fn gen_all(h: &mut Hist, rng: &mut Rng, cfg: &GenCfg, out: &mut Emitter) {
         eprintln!("generator failed: {r}");
         std::process::exit(3);
     }
+    // generation used the pool: `run` must start from a clean state (corpus lines come first)
+    h.reset();
 }
